@@ -16,7 +16,7 @@ def names_tie(ctx):
                                       "impl": b["impl"].split("names=")[1], "reference": b["model"].split("names=")[1]})
 
 
-CFG = apiprops.cfg("C16", ["C16_len", "C16_group_range", "C16_get_oob", "C16_len_truncated"], [apiprops.api_extra("C16", limits=("-",)), names_tie],
+CFG = apiprops.cfg("C16", ["C16_len", "C16_group_range", "C16_get_oob", "C16_len_truncated", "C16_parser_group_count", "C16_names_in_range", "C16_len_from_pattern"], [apiprops.api_extra("C16", limits=("-",)), names_tie],
                    feats=[gen.Feats(named=True, cond=True, contg=True), gen.Feats(named=True, fancy=False), gen.Feats(named=True, nullable_star=True)],
                    corpus=["(?<a>x)(?P<b>y)(z)", "(?<n>a)|(?<m>b)", "(a)(?=(?<q>b))", "((a)|(?<x>b))*", "(?<a>(?<b>(?<c>x)))", "(x)(?(1)(?<y>a)|(b))", "(?P<outer>a(b))", "(?P<o>(?P<i>a)(b))(?=c)", "(?<o>a(?P<i>b(c)))\\k<i>",
                            # groups under a {0} repeat still count (and keep their names)
